@@ -338,6 +338,21 @@ func (h *c13Hist) releaseOp(u *c13Unit, force bool) {
 		h.viol("release:dir-remains:"+cmd+":"+kind, fmt.Sprintf("unit %s (%s) was acknowledged as released (%s) but its directory still exists %d s later with %v", u.ID, u.Kind, strings.TrimSpace(reply), rounds/5, names), nil)
 		return
 	}
+	if u.Remote {
+		// the in-memory entry of an asynchronously released remote unit goes right after its files
+		stillListed := true
+		for i := 0; i < 100 && stillListed; i++ {
+			if m, _, err := listUnits(h.L, 15*time.Second); err == nil && m[u.ID] == nil {
+				stillListed = false
+			} else {
+				time.Sleep(100 * time.Millisecond)
+			}
+		}
+		if stillListed {
+			h.viol("release:still-listed:"+cmd+":remote", fmt.Sprintf("unit %s (%s) was acknowledged as released and its directory is gone, but it is still listed 10 s later", u.ID, u.Kind), nil)
+			return
+		}
+	}
 	// from here on the unit must be unknown
 	u.mu.Lock()
 	u.released = true
